@@ -46,7 +46,7 @@ SHUTTLE_BIN = os.environ.get(
 THREADS_BIN = os.environ.get(
     "CONC_THREADS_BIN", os.path.join(ROOT, ".build/target-conc-threads/release/harness-conc"))
 REPLAY_BIN = os.environ.get("CONC_REPLAY_BIN", os.path.join(ROOT, ".build/ocaml-conc/replay"))
-TRACE_DIR = os.path.join(ROOT, ".build/conc-traces")
+TRACE_DIR = os.path.join(ROOT, ".build/conc-traces", str(os.getpid()))
 
 # iterations per (runtime, sched) run
 TIERS = {
